@@ -56,7 +56,7 @@ def required_cells(tier):
             "idempotence:pttempo": 1, "idempotence:gibbs": 1,
             "fault:tempo_td": 1, "fault:tempo_corr": 1, "fault:pttempo_corr": 1,
             "fault:meanfield": 1, "fault:gibbs_j": 1,
-            "fault:tempo_stream": 1,
+            "fault:tempo_stream": 1, "fault:meanfield_stream": 1,
             "faults_injected": 60,
             "decreasing-target": 3, "repeated-target": 3,
             "edge:tempo": 2, "edge:meanfield": 1, "edge_hair_targets": 40}
@@ -87,7 +87,7 @@ def cases(tier, seed):
         out.append({"kind": "edge", "seed": seed, "idx": i, "tier": tier})
     nf = 2 if tier == "quick" else 8
     for fc in ("tempo_td", "tempo_corr", "pttempo_corr", "meanfield",
-               "gibbs_j", "tempo_stream"):
+               "gibbs_j", "tempo_stream", "meanfield_stream"):
         for i in range(nf):
             out.append({"kind": "fault", "cfg": fc, "seed": seed, "idx": i,
                         "tier": tier})
@@ -467,6 +467,22 @@ class CorrProbe:
 PROG = ["silent"]
 
 
+class StreamProbe:
+    def __init__(self):
+        self.count, self.fail_at, self.n_raised = 0, None, 0
+
+    def write(self, text):
+        self.count += 1
+        if self.fail_at is not None and \
+                self.count == self.fail_at:
+            self.n_raised += 1
+            raise BrokenPipeError("injected fault: stream")
+        return len(text)
+
+    def flush(self):
+        pass
+
+
 def run_fault(case):
     import oqupy
     cfg = case["cfg"]
@@ -501,20 +517,6 @@ def run_fault(case):
             # not a user callable but the output stream fails once while the
             # 'simple' progress report is written (closed pipe); the same
             # contract: the repeated compute() gives the full dynamics
-            class StreamProbe:
-                def __init__(self):
-                    self.count, self.fail_at, self.n_raised = 0, None, 0
-
-                def write(self, text):
-                    self.count += 1
-                    if self.fail_at is not None and \
-                            self.count == self.fail_at:
-                        self.n_raised += 1
-                        raise BrokenPipeError("injected fault: stream")
-                    return len(text)
-
-                def flush(self):
-                    pass
             sp = StreamProbe()
             sysd = scen.random_system(rng, 2, "td")
             params = lib.tempo_params(dt, 1e-8, [None, 2][i % 2], None)
@@ -608,7 +610,7 @@ def run_fault(case):
                         np.array(dyn.states).reshape(len(dyn.times), -1))
             return comp, snap, cp
         # mean field
-        probe = scen.Probe()
+        probe = scen.Probe() if cfg == "meanfield" else None
         mf = lib.MeanFieldModel(rng, [2] if i % 2 else [2, 2])
         mfs, _ = mf.build(probe=probe)
         params = lib.tempo_params(dt, 1e-8, [2, None][i % 2],
@@ -627,6 +629,16 @@ def run_fault(case):
                     for sd in dyn.system_dynamics]
             arrs.append(np.array(dyn.fields).reshape(-1, 1))
             return np.array(dyn.times), np.concatenate(arrs, axis=1)
+        if cfg == "meanfield_stream":
+            # the output stream fails once while progress is reported
+            sp = StreamProbe()
+
+            def comp():
+                import contextlib
+                with contextlib.redirect_stdout(sp):
+                    return t.compute(
+                        end, progress_type=["simple", "bar"][(i // 2) % 2])
+            return comp, snap, sp
         return (lambda: t.compute(end, progress_type=PROG[0]), snap, probe)
 
     comp, snap, probe = build()
